@@ -74,6 +74,8 @@ type Enc struct {
 	pendingCopyOut []copyOut
 	curCall *ssa.Call
 	defined map[string]int
+	wfSeen  map[string]bool
+	pendingWF []string
 	lemmaMode bool // proving a `derives` clause: no body, no frame obligations
 }
 
@@ -130,6 +132,7 @@ func (e *Enc) define(name, sort, val string) string {
 }
 
 func (e *Enc) assume(cond string) {
+	e.flushWF()
 	if cond == "true" || cond == "" {
 		return
 	}
@@ -158,6 +161,7 @@ func (e *Enc) oblige(kind, label, goal, text string, props []string, pos token.P
 	if props == nil {
 		props = e.c.Props
 	}
+	e.flushWF()
 	o := &Obligation{
 		Name: e.key + "#" + k, Kind: kind, Props: props, Fn: e.key, Text: text,
 		prefix: len(e.body), guard: e.curReach, goal: goal, enc: e,
@@ -181,7 +185,36 @@ func (e *Enc) env(pre, cur *State, vars map[string]Term) *Env {
 	if vars == nil {
 		vars = e.params
 	}
-	return &Env{w: e.w, pkg: e.pkg, vars: vars, pre: pre, cur: cur, W0: "W_0", decl: e.declare, useMem: e.useMem, ghost: e.ghost}
+	return &Env{w: e.w, pkg: e.pkg, vars: vars, pre: pre, cur: cur, W0: "W_0", decl: e.declare, useMem: e.useMem, ghost: e.ghost, noteWF: e.noteWF}
+}
+
+// noteWF: a contract expression read a slice/interface from memory. Every value the Go runtime
+// keeps in memory is well formed (0 <= len <= cap, a nil interface has no payload, ...): the fact
+// is assumed for the ground term before the next obligation or assumption is recorded.
+func (e *Enc) noteWF(s string, t types.Type) {
+	if strings.Contains(s, "q1_") || strings.Contains(s, "q2_") || strings.Contains(s, "q3_") || strings.Contains(s, "q4_") || strings.Contains(s, "wf!") {
+		return // mentions a bound variable
+	}
+	switch t.Underlying().(type) {
+	case *types.Slice, *types.Interface, *types.Struct:
+	default:
+		return
+	}
+	if e.wfSeen == nil {
+		e.wfSeen = map[string]bool{}
+	}
+	if e.wfSeen[s] {
+		return
+	}
+	e.wfSeen[s] = true
+	e.pendingWF = append(e.pendingWF, e.w.reg.wf(s, t, e.cur.W)...)
+}
+
+func (e *Enc) flushWF() {
+	for _, f := range e.pendingWF {
+		e.body = append(e.body, "(assert "+f+")")
+	}
+	e.pendingWF = nil
 }
 
 // ---- entry -------------------------------------------------------------------
